@@ -703,6 +703,10 @@ func (db *RockDB) SetRange(ts int64, rawKey []byte, offset int, value []byte) (i
 	if realV == nil && !keyInfo.Expired {
 		db.IncrTableKeyCount(keyInfo.Table, 1, db.wb)
 	}
+	if keyInfo.Expired {
+		// the old value is dead, start from empty as if the key did not exist
+		realV = nil
+	}
 	extra := offset + len(value) - len(realV)
 	if extra > 0 {
 		realV = append(realV, make([]byte, extra)...)
@@ -779,10 +783,15 @@ func (db *RockDB) Append(ts int64, rawKey []byte, value []byte) (int64, error) {
 	if err != nil {
 		return 0, err
 	}
+	isNewKey := realV == nil && !keyInfo.Expired
+	if keyInfo.Expired {
+		// the old value is dead, start from empty as if the key did not exist
+		realV = nil
+	}
 	if len(realV)+len(value) > MaxValueSize {
 		return 0, errValueSize
 	}
-	if realV == nil && !keyInfo.Expired {
+	if isNewKey {
 		db.IncrTableKeyCount(keyInfo.Table, 1, db.wb)
 	}
 
